@@ -12,6 +12,27 @@ CLAIMS = {
                 "and norm-preservation of rotate follow from the verified transformation law for orthogonal R (theorem, not re-checked).",
         "technique": "algebraic abstract interpretation of the AST + normal-form identity checking",
     },
+    "C18": {
+        "level": "other",
+        "text": "Static necessary conditions, decided on every run from the source: for all three flow factories and all six ordered axis "
+                "pairs the gradient callable equals the exact symbolic Jacobian of the paired velocity callable (162 cells) and is trace-free; "
+                "the axis-letter table is exhaustive and rejects repeats; strain_increment equals |dt|·max|eig(sym L)|; get_pathline wires "
+                "start point/time, direction, RHS vs Jacobian, inside-gating, terminal event and returned timestamps correctly; the event "
+                "function must be pure. The behaviour along integrated pathlines (accuracy, staying in the box, strain slack) is NOT decided.",
+        "note": "Trusted: NumPy semantics of the interpreted subset, chain rules of the symbolic differentiator, solve_ivp's callback contract. "
+                "Known findings (simple_shear gradient = 2×Jacobian, cell_2d row exchange, stateful event) are listed in known_findings.json.",
+        "technique": "abstract interpretation + exact symbolic differentiation of extracted normal forms; stubbed-solver wiring analysis; AST effect scan",
+    },
+    "C20": {
+        "level": "other",
+        "text": "Identities on generic symbols for to_cartesian/to_spherical (incl. the exact round trip), poles for all six reference-axes "
+                "strings, and the Lambert law X^2+Y^2 = 1-|z| with preserved azimuth and masked centre; CFG-dominance/table rules for the "
+                "point_density pipeline (validation before lookup, kernel signatures, axial abs, normalise-before-clip, counter provenance). "
+                "Numerical ranges of density estimates and kernel mathematics are NOT decided.",
+        "note": "Trusted: NumPy/numpy.ma semantics as modelled, trigonometric rewrite rules of the algebra. The to_spherical defect was repaired "
+                "(fix: commit in /repo, recorded as fixed in known_findings.json).",
+        "technique": "algebraic abstract interpretation + normal-form identities; CFG dominance and table agreement for the density pipeline",
+    },
 }
 
 NOT_APPLICABLE = {}
